@@ -16,7 +16,9 @@ use std::collections::{BTreeSet, HashMap};
 // ---------------------------------------------------------------- documents
 
 #[derive(Clone, Debug)]
-pub(crate) enum Val { Var(String), Bool(bool), Str(String), Null, Int, Enum, List(Vec<String>), Obj(Vec<String>) }
+pub(crate) enum Val { Var(String), Bool(bool), Str(String), Null, Int, Enum, List(Vec<String>), Obj(Vec<String>),
+    /// an `In2` literal with variables nested several levels deep: `{l: [{x: $a}], o: {o: {ll: [[1 $b]]}}}`
+    Deep(Vec<String>) }
 #[derive(Clone, Debug)]
 pub(crate) struct Arg { pub name: String, pub value: Val }
 #[derive(Clone, Debug)]
@@ -46,6 +48,14 @@ fn p_val(v: &Val, o: &mut String) {
         Val::Enum => o.push('X'),
         Val::List(vs) => { o.push_str("[1"); for v in vs { o.push_str(" $"); o.push_str(v); } o.push(']'); }
         Val::Obj(vs) => { if vs.is_empty() { o.push_str("{x: 1}"); } else { o.push_str("{x: $"); o.push_str(&vs[0]); o.push('}'); } }
+        Val::Deep(vs) => {
+            o.push_str("{l: [{x: ");
+            // (`_` = no variable at the first position, only in the nested list)
+            match vs.first() { Some(v) if v != "_" => { o.push('$'); o.push_str(v); } _ => o.push('1') }
+            o.push_str("}], o: {o: {ll: [[1");
+            for v in vs.iter().skip(1) { o.push_str(" $"); o.push_str(v); }
+            o.push_str("]]}}}");
+        }
     }
 }
 fn p_args(a: &[Arg], o: &mut String) {
@@ -121,7 +131,8 @@ impl Intern {
     }
     pub fn id(&mut self, s: &str) -> usize { let n = self.map.len(); *self.map.entry(s.to_string()).or_insert(n) }
 }
-pub(crate) fn inner_name(ty: &str) -> String { ty.chars().filter(|c| c.is_ascii_alphanumeric() || *c == '_').collect() }
+/// the named type of a variable definition's type text (a default value, `Int = 7`, is not part of it)
+pub(crate) fn inner_name(ty: &str) -> String { ty.split('=').next().unwrap_or("").chars().filter(|c| c.is_ascii_alphanumeric() || *c == '_').collect() }
 
 fn e_val(v: &Val, it: &mut Intern, o: &mut Vec<String>) {
     match v {
@@ -130,7 +141,7 @@ fn e_val(v: &Val, it: &mut Intern, o: &mut Vec<String>) {
         Val::Str(s) => o.push(format!("s{}", it.id(s))),
         Val::Null => o.push("n".into()),
         Val::Int | Val::Enum => o.push("o0".into()),
-        Val::List(vs) | Val::Obj(vs) => { o.push(format!("o{}", vs.len())); for v in vs { o.push(it.id(v).to_string()); } }
+        Val::List(vs) | Val::Obj(vs) | Val::Deep(vs) => { let vs: Vec<&String> = vs.iter().filter(|v| *v != "_").collect(); o.push(format!("o{}", vs.len())); for v in vs { o.push(it.id(v).to_string()); } }
     }
 }
 fn e_args(a: &[Arg], it: &mut Intern, o: &mut Vec<String>) {
@@ -348,15 +359,19 @@ fn one(ctx: &mut Ctx, w: &World, defs: &[Def], family: &str) {
         }
     }
     if valid_somewhere { ctx.stat("docs_valid_somewhere"); } else { ctx.stat("docs_valid_nowhere"); }
+    if !valid_somewhere && family == "clean" {
+        // which rules keep the rule-abiding documents from validating (generator quality, shown in the evidence)
+        if let Ok(ws) = run_schema(&w.schemas[0].1, &text) { let set: BTreeSet<String> = ws.into_iter().collect(); for k in set { ctx.stat(&format!("clean_doc_invalid_on_A:{k}")); } }
+    }
 }
 
 // ---------------------------------------------------------------- generator
 
 pub(crate) const SCHEMA_A: &str = r#"
-directive @c(x: Int, l: [Int], o: In) repeatable on QUERY | MUTATION | SUBSCRIPTION | FIELD | FRAGMENT_DEFINITION | FRAGMENT_SPREAD | INLINE_FRAGMENT | VARIABLE_DEFINITION
+directive @c(x: Int, l: [Int], o: In, d: In2) repeatable on QUERY | MUTATION | SUBSCRIPTION | FIELD | FRAGMENT_DEFINITION | FRAGMENT_SPREAD | INLINE_FRAGMENT | VARIABLE_DEFINITION
 directive @d(r: Int!) on FIELD | QUERY
 directive @defer(label: String, if: Boolean! = true) on FRAGMENT_SPREAD | INLINE_FRAGMENT
-type Query { a: Int b(x: Int, f: Boolean! = true, en: E, inp: In): String o: A i: I u: U l(r: Int!): [A!]! e: E }
+type Query { a: Int b(x: Int, f: Boolean! = true, en: E, inp: In, deep: In2): String o: A i: I u: U l(r: Int!): [A!]! e: E }
 type Mutation { m(x: Int): A }
 type Subscription { s: A }
 type A implements I { a: Int b(x: Int): String o: A i: I u: U }
@@ -365,24 +380,26 @@ interface I { a: Int o: A }
 union U = A | B
 enum E { X Y }
 input In { x: Int }
+input In2 { x: Int l: [In2!] o: In2 ll: [[Int]] }
 "#;
 pub(crate) const SCHEMA_B: &str = r#"
 directive @c(x: Int!) on FIELD
-type Query { a: Int b(x: Int, f: Boolean! = true, en: E, inp: In): String o: A i: I u: U l(r: Int!): [A!]! e: E }
+type Query { a: Int b(x: Int, f: Boolean! = true, en: E, inp: In, deep: In2): String o: A i: I u: U l(r: Int!): [A!]! e: E }
 type A implements I { a: Int b(x: Int): String o: A i: I u: U }
 type B implements I { a: Int o: A bb: Boolean }
 interface I { a: Int o: A }
 union U = A | B
 enum E { X Y }
 input In { x: Int }
+input In2 { x: Int l: [In2!] o: In2 ll: [[Int]] }
 "#;
 pub(crate) const SCHEMA_C: &str = r#"
 schema { query: Q mutation: M subscription: Sb }
-directive @c(x: Int, l: [Int], o: In) repeatable on QUERY | MUTATION | SUBSCRIPTION | FIELD | FRAGMENT_DEFINITION | FRAGMENT_SPREAD | INLINE_FRAGMENT | VARIABLE_DEFINITION
+directive @c(x: Int, l: [Int], o: In, d: In2) repeatable on QUERY | MUTATION | SUBSCRIPTION | FIELD | FRAGMENT_DEFINITION | FRAGMENT_SPREAD | INLINE_FRAGMENT | VARIABLE_DEFINITION
 directive @d(r: Int) repeatable on FIELD | QUERY | INLINE_FRAGMENT | FRAGMENT_SPREAD | FRAGMENT_DEFINITION | VARIABLE_DEFINITION | MUTATION | SUBSCRIPTION
 directive @u on FIELD | QUERY | MUTATION | SUBSCRIPTION | FRAGMENT_DEFINITION | FRAGMENT_SPREAD | INLINE_FRAGMENT | VARIABLE_DEFINITION
 directive @defer(label: String, if: Boolean! = true) on FRAGMENT_SPREAD | INLINE_FRAGMENT
-type Q { a: Int b(x: Int, f: Boolean! = true, en: E, inp: In): String o: A i: I u: U l(r: Int!): [A!]! e: E zz: Int }
+type Q { a: Int b(x: Int, f: Boolean! = true, en: E, inp: In, deep: In2): String o: A i: I u: U l(r: Int!): [A!]! e: E zz: Int }
 type M { m(x: Int): A }
 type Sb { s: A }
 type A implements I { a: Int b(x: Int): String o: A i: I u: U zz: A }
@@ -391,6 +408,7 @@ interface I { a: Int o: A }
 union U = A | B
 enum E { X Y }
 input In { x: Int }
+input In2 { x: Int l: [In2!] o: In2 ll: [[Int]] }
 scalar Query
 "#;
 
@@ -399,7 +417,7 @@ scalar Query
 type FieldRow = (&'static str, &'static [(&'static str, char, bool)], &'static str);
 fn fields_of(t: &str) -> &'static [FieldRow] {
     match t {
-        "Query" => &[("a", &[], ""), ("b", &[("x", 'i', false), ("f", 'b', false), ("en", 'e', false), ("inp", 'n', false)], ""), ("o", &[], "A"), ("i", &[], "I"), ("u", &[], "U"), ("l", &[("r", 'i', true)], "A"), ("e", &[], ""),
+        "Query" => &[("a", &[], ""), ("b", &[("x", 'i', false), ("f", 'b', false), ("en", 'e', false), ("inp", 'n', false), ("deep", 'd', false)], ""), ("o", &[], "A"), ("i", &[], "I"), ("u", &[], "U"), ("l", &[("r", 'i', true)], "A"), ("e", &[], ""),
             ("__typename", &[], ""), ("__schema", &[], "__Schema"), ("__type", &[("name", 's', true)], "__Type")],
         "__Schema" => &[("queryType", &[], "__Type"), ("types", &[], "__Type"), ("__typename", &[], "")],
         "__Type" => &[("name", &[], ""), ("kind", &[], ""), ("ofType", &[], "__Type"), ("__typename", &[], "")],
@@ -435,6 +453,14 @@ impl G<'_> {
     fn int_val(&mut self) -> Val {
         match self.r.below(5) { 0 | 1 => Val::Var(format!("i{}", self.r.below(2))), 2 if self.bad() => Val::Null, _ => Val::Int }
     }
+    /// a value for a required `Int!` position: in rule-abiding documents a literal or the `Int!` variable `$r0`
+    fn int_req(&mut self) -> Val {
+        if self.bad == 0 { if self.r.chance(1, 3) { Val::Var("r0".into()) } else { Val::Int } } else { self.int_val() }
+    }
+    fn deep_val(&mut self) -> Val {
+        let n = self.r.below(4);
+        Val::Deep((0..n).map(|_| format!("i{}", self.r.below(2))).collect())
+    }
     fn dirs(&mut self, loc: char) -> Vec<Dir> {
         let mut out = vec![];
         if !self.r.chance(self.dirp, 1000) { return out; }
@@ -451,24 +477,27 @@ impl G<'_> {
                     if self.r.chance(1, 3) { args.push(Arg { name: "if".into(), value: self.bool_val() }); }
                     Dir { name: "defer".into(), args }
                 }
-                6 if loc == 'f' || loc == 'q' => Dir { name: "d".into(), args: if self.bad() { vec![] } else { vec![Arg { name: "r".into(), value: self.int_val() }] } },
+                6 if loc == 'f' || loc == 'q' => Dir { name: "d".into(), args: if self.bad() { vec![] } else { vec![Arg { name: "r".into(), value: self.int_req() }] } },
                 7 if self.bad() => Dir { name: (*self.r.pick(&["u", "deprecated", "specifiedBy", "d", "skip"])).into(), args: vec![] },
                 _ => {
                     let mut args = vec![];
                     if self.r.chance(1, 2) { args.push(Arg { name: "x".into(), value: self.int_val() }); }
                     if self.r.chance(1, 4) { args.push(Arg { name: "l".into(), value: Val::List(if self.r.chance(1, 2) { vec![format!("i{}", self.r.below(2))] } else { vec![] }) }); }
                     if self.r.chance(1, 6) { args.push(Arg { name: "o".into(), value: Val::Obj(if self.r.chance(1, 2) { vec![format!("i{}", self.r.below(2))] } else { vec![] }) }); }
+                    if self.r.chance(1, 6) { let v = self.deep_val(); args.push(Arg { name: "d".into(), value: v }); }
                     if self.bad() { args.push(Arg { name: (*self.r.pick(&["x", "nope"])).into(), value: Val::Int }); }
                     Dir { name: "c".into(), args }
                 }
             };
+            // rule-abiding documents do not repeat a directive that one of the schemas declares non-repeatable
+            if self.bad == 0 && d.name != "c" && out.iter().any(|x: &Dir| x.name == d.name) { continue; }
             out.push(d);
         }
         if self.bad() && !out.is_empty() { let d = out[0].clone(); out.push(d); }
         if loc == 'v' {
             // directives on a variable definition are constant: no variables inside
             for d in out.iter_mut() { for a in d.args.iter_mut() {
-                a.value = match &a.value { Val::Var(n) if n.starts_with('b') => Val::Bool(true), Val::Var(_) => Val::Int, Val::List(_) => Val::List(vec![]), Val::Obj(_) => Val::Obj(vec![]), v => v.clone() };
+                a.value = match &a.value { Val::Var(n) if n.starts_with('b') => Val::Bool(true), Val::Var(_) => Val::Int, Val::List(_) => Val::List(vec![]), Val::Obj(_) => Val::Obj(vec![]), Val::Deep(_) => Val::Deep(vec![]), v => v.clone() };
             } }
         }
         out
@@ -476,6 +505,13 @@ impl G<'_> {
     fn sels(&mut self, parent: &str, depth: usize, allow_spread_from: usize, root: bool) -> Vec<Sel> {
         let n = 1 + self.r.below(if root && parent == "Subscription" { 1 } else { 3 });
         let mut out = vec![];
+        if root && parent == "Subscription" && self.bad == 0 {
+            // a rule-abiding subscription: exactly one root field, not under @skip / @include
+            let sub = self.sels("A", depth + 1, allow_spread_from, false);
+            let alias = if self.r.chance(1, 2) { Some(self.fresh("k")) } else { None };
+            let dirs: Vec<Dir> = self.dirs('f').into_iter().filter(|d| d.name != "skip" && d.name != "include").collect();
+            return vec![Sel::Field { alias, name: "s".into(), dirs, args: vec![], sub }];
+        }
         for _ in 0..n {
             let rows = fields_of(parent);
             let k = self.r.below(10);
@@ -493,7 +529,8 @@ impl G<'_> {
                             's' => Val::Str("A".into()),
                             'e' => if self.r.chance(1, 2) { Val::Var(format!("e{}", self.r.below(2))) } else { Val::Enum },
                             'n' => if self.r.chance(1, 2) { Val::Var(format!("n{}", self.r.below(2))) } else { Val::Obj(vec![]) },
-                            _ => self.int_val(),
+                            'd' => self.deep_val(),
+                            _ => if *req { self.int_req() } else { self.int_val() },
                         };
                         args.push(Arg { name: an.to_string(), value: v });
                     }
@@ -501,7 +538,8 @@ impl G<'_> {
                 if self.bad() { args.push(Arg { name: (*self.r.pick(&["x", "nope"])).into(), value: Val::Int }); }
                 let mut sub = if row.2.is_empty() { vec![] } else { self.sels(row.2, depth + 1, allow_spread_from, false) };
                 if self.bad() { if sub.is_empty() { sub = vec![Sel::Field { alias: None, name: "a".into(), dirs: vec![], args: vec![], sub: vec![] }]; } else { sub.clear(); } }
-                let alias = if name != "__typename" && self.r.chance(9, 10) { Some(self.fresh("k")) } else { None };
+                // (rule-abiding documents: a field with arguments always gets its own response key, so that two selections never conflict)
+                let alias = if name != "__typename" && (self.r.chance(9, 10) || (self.bad == 0 && !args.is_empty())) { Some(self.fresh("k")) } else { None };
                 let dirs = self.dirs('f');
                 out.push(Sel::Field { alias, name, dirs, args, sub });
             } else if k < 8 {
@@ -520,7 +558,11 @@ impl G<'_> {
                 out.push(Sel::Spread { frag, dirs });
             }
         }
-        if out.is_empty() { out.push(Sel::Field { alias: None, name: if parent == "U" { "__typename".into() } else { fields_of(parent)[0].0.into() }, dirs: vec![], args: vec![], sub: vec![] }); }
+        if out.is_empty() {
+            let row = &fields_of(parent)[0];
+            let sub = if row.2.is_empty() || self.bad > 0 { vec![] } else { vec![Sel::Field { alias: None, name: "__typename".into(), dirs: vec![], args: vec![], sub: vec![] }] };
+            out.push(Sel::Field { alias: None, name: if parent == "U" { "__typename".into() } else { row.0.into() }, dirs: vec![], args: vec![], sub });
+        }
         out
     }
 }
@@ -530,7 +572,7 @@ impl G<'_> {
 pub(crate) fn collect_vars(defs_frags: &[Frag], sels: &[Sel], dirs: &[Dir], out: &mut BTreeSet<String>) {
     fn dv(d: &[Dir], out: &mut BTreeSet<String>) { for x in d { av(&x.args, out); } }
     fn av(a: &[Arg], out: &mut BTreeSet<String>) {
-        for x in a { match &x.value { Val::Var(n) => { out.insert(n.clone()); } Val::List(vs) | Val::Obj(vs) => { for v in vs { out.insert(v.clone()); } } _ => {} } }
+        for x in a { match &x.value { Val::Var(n) => { out.insert(n.clone()); } Val::List(vs) | Val::Obj(vs) | Val::Deep(vs) => { for v in vs { if v != "_" { out.insert(v.clone()); } } } _ => {} } }
     }
     fn go(fr: &[Frag], s: &[Sel], seen: &mut BTreeSet<String>, out: &mut BTreeSet<String>) {
         for x in s {
@@ -591,13 +633,14 @@ pub(crate) fn gen_doc(r: &mut Rng, clean: bool) -> Vec<Def> {
         while let Some(f) = todo.pop() {
             if reached.insert(f.clone()) { if let Some(fr) = frags.iter().find(|x| x.name == f) { let mut s = BTreeSet::new(); spreads_in(&fr.sels, &mut s); todo.extend(s); } }
         }
+        let host = ops.iter().position(|o| o.ty == 0);
         for j in 0..nfrag {
             let n = format!("F{j}");
-            if !reached.contains(&n) && !g.bad() && ops[0].ty == 0 {
+            if let (false, Some(host)) = (reached.contains(&n) || g.bad(), host) {
                 let dirs = g.dirs('p');
                 let wrap = Sel::Field { alias: Some(g.fresh("k")), name: if g.frag_tcs[j] == "B" { "i".into() } else if g.frag_tcs[j] == "U" { "u".into() } else { "o".into() }, dirs: vec![], args: vec![],
                     sub: vec![Sel::Spread { frag: n.clone(), dirs }] };
-                ops[0].sels.push(wrap);
+                ops[host].sels.push(wrap);
                 let mut s = BTreeSet::new();
                 spreads_in(&frags[j].sels, &mut s);
                 let mut todo: Vec<String> = s.into_iter().collect();
@@ -608,13 +651,23 @@ pub(crate) fn gen_doc(r: &mut Rng, clean: bool) -> Vec<Def> {
             }
         }
     }
+    if g.bad == 0 {
+        // rule-abiding documents have no unused fragment (no query operation could host it)
+        let mut reached = BTreeSet::new();
+        let mut todo: Vec<String> = vec![];
+        for o in &ops { let mut s = BTreeSet::new(); spreads_in(&o.sels, &mut s); todo.extend(s); }
+        while let Some(f) = todo.pop() {
+            if reached.insert(f.clone()) { if let Some(fr) = frags.iter().find(|x| x.name == f) { let mut s = BTreeSet::new(); spreads_in(&fr.sels, &mut s); todo.extend(s); } }
+        }
+        frags.retain(|f| reached.contains(&f.name));
+    }
     // variables: declare what is used (types follow the name), with the occasional slip
     for o in ops.iter_mut() {
         let mut used = BTreeSet::new();
         collect_vars(&frags, &o.sels, &o.dirs, &mut used);
         for v in used {
             if g.bad() { continue; }
-            let mut ty = match v.chars().next() { Some('b') => "Boolean!", Some('e') => "E", Some('n') => "In", _ => "Int" }.to_string();
+            let mut ty = match v.chars().next() { Some('b') => "Boolean!", Some('e') => "E", Some('n') => "In", Some('r') => "Int!", _ => "Int" }.to_string();
             if ty == "E" && g.r.chance(1, 3) { ty = "E!".into(); }
             if g.bad() { ty = (*g.r.pick(&["A", "Nope", "[In]", "E"])).to_string(); }
             let dirs = if g.r.chance(1, 5) { g.dirs('v') } else { vec![] };
@@ -628,6 +681,48 @@ pub(crate) fn gen_doc(r: &mut Rng, clean: bool) -> Vec<Def> {
     for f in frags { let at = if g.r.chance(1, 4) { g.r.below(defs.len() + 1) } else { defs.len() }; defs.insert(at, Def::Frag(f)); }
     if g.bad() { let at = g.r.below(defs.len() + 1); defs.insert(at, Def::TypeSystem); }
     defs
+}
+
+fn devar(sels: &mut [Sel]) {
+    fn dv(v: &mut Val) {
+        let new = match &*v {
+            Val::Var(n) => match n.chars().next() { Some('b') => Val::Bool(true), Some('e') => Val::Enum, Some('n') => Val::Obj(vec![]), _ => Val::Int },
+            Val::List(_) => Val::List(vec![]), Val::Obj(_) => Val::Obj(vec![]), Val::Deep(_) => Val::Deep(vec![]), x => x.clone(),
+        };
+        *v = new;
+    }
+    for s in sels.iter_mut() {
+        match s {
+            Sel::Field { dirs, args, sub, .. } => { for d in dirs.iter_mut() { for a in d.args.iter_mut() { dv(&mut a.value); } } for a in args.iter_mut() { dv(&mut a.value); } devar(sub); }
+            Sel::Inline { dirs, sub, .. } => { for d in dirs.iter_mut() { for a in d.args.iter_mut() { dv(&mut a.value); } } devar(sub); }
+            Sel::Spread { dirs, .. } => { for d in dirs.iter_mut() { for a in d.args.iter_mut() { dv(&mut a.value); } } }
+        }
+    }
+}
+
+/// a rule-abiding selection set on composite type `parent` of the generator's schemas, without variables and without
+/// named fragments (the text of a field set), braces included
+pub(crate) fn gen_fieldset(r: &mut Rng, parent: &str) -> String {
+    let dirp = *r.pick(&[0u32, 300, 600]);
+    let mut g = G { r, bad: 0, dirp, frag_tcs: vec![], counter: 0, in_query: false };
+    let mut sels = g.sels(parent, 2, 0, false);
+    devar(&mut sels);
+    let mut o = String::new();
+    p_sels(&sels, &mut o);
+    o.trim().to_string()
+}
+
+/// default values on some variable definitions (the type text carries them: `Int = 7`)
+pub(crate) fn with_defaults(r: &mut Rng, defs: &mut [Def]) {
+    for d in defs.iter_mut() {
+        if let Def::Op(o) = d {
+            for v in o.vars.iter_mut() {
+                if !r.chance(1, 3) { continue; }
+                let dv = match v.ty.as_str() { "Int" => " = 7", "Boolean!" => " = false", "E" => " = X", "In" => " = {x: 1}", _ => "" };
+                v.ty.push_str(dv);
+            }
+        }
+    }
 }
 
 /// Fragment graphs for the cycle rule: an acyclic chain of `k` entry fragments leading into a cycle of `m`
@@ -755,7 +850,9 @@ pub fn run(ctx: &mut Ctx) {
     let n = if ctx.thorough { 60_000 } else { 5_000 };
     for i in 0..n {
         let clean = i % 2 == 0;
-        let d = gen_doc(&mut ctx.rng, clean);
+        let mut d = gen_doc(&mut ctx.rng, clean);
+        // every third document: default values on variable definitions
+        if i % 3 == 2 { with_defaults(&mut ctx.rng, &mut d); ctx.stat("docs_with_variable_defaults_possible"); }
         one(ctx, &w, &d, if clean { "clean" } else { "dirty" });
     }
 }
